@@ -71,6 +71,7 @@ func execRenum(a []string) string {
 		return fmt.Sprintf("init %d %s", code, p)
 	}
 	var outs []string
+	nMaster, started, prevMaster := 0, false, uint64(0)
 	for i, u := range strings.Split(a[1], ";") {
 		f := strings.Split(u, ":")
 		if len(f) != 3 || (f[0] != "v" && f[0] != "a") {
@@ -102,6 +103,20 @@ func execRenum(a []string) string {
 		before := renumDirDigest(trDir)
 		code, p := c19Put(h, c19Upload{fmt.Sprintf("/upload/rn/%s/%d%s", f[0], seq, ext), buf.Bytes()})
 		time.Sleep(25 * time.Millisecond) // the channel goroutine (start of the channel, MPD)
+		if f[0] == "v" && !started {
+			nMaster++
+			if nMaster == 2 && seq == prevMaster+1 {
+				// the channel starts now: its first MPD is written by the channel goroutine (wait for it on a loaded machine)
+				waitFor(3*time.Second, func() bool {
+					_, err := os.Stat(filepath.Join(dir, "rn", "manifest.mpd"))
+					return err == nil
+				})
+				started = true
+			} else if nMaster >= 2 {
+				nMaster = 1
+			}
+			prevMaster = seq
+		}
 		if p != "" {
 			outs = append(outs, "PANIC")
 			continue
